@@ -81,6 +81,9 @@ func (w *world) exec(r *hx.Run, op []string) (res string) {
 	case "dump":
 		return w.now().text()
 	}
+	if out, handled := w.execAdmission(r, op); handled {
+		return out
+	}
 	if len(op) < 2 {
 		return "bad-op"
 	}
